@@ -805,6 +805,10 @@ func (tic *TermInCommittee) HandleNewView(nvm *interfaces.NewViewMessage) {
 				return
 			}
 		}
+		if !ppMessageContent.SignedHeader().BlockHash().Equal(latestVoteBlockHash) {
+			tic.logger.Info("LHMSG RECEIVED NEW_VIEW IGNORE - NewView.Preprepare block hash does not match the block hash of the latest prepared proof")
+			return
+		}
 	}
 
 	ppm := interfaces.NewPreprepareMessage(ppMessageContent, nvm.Block())
